@@ -75,7 +75,9 @@ def monitorsWant (c : Spec.Ctx) (obsDelta : Int) (j : Journal) (fatalHere : Bool
   (if fatalHere then [] else (Spec.decisionBad c obsDelta).flatMap (fun t => ["C06|" ++ t, "C13|" ++ t] ++
     -- the exact utilisation is taken over the uncordoned nodes only: with a cordoned node in view, a decision that
     -- contradicts it also speaks against "a cordoned node's resources are excluded from the capacity"
-    (if c.view.nodes.any (·.unschedulable) then ["C09|cordoned-node-in-view:" ++ t] else []))) ++
+    (if c.view.nodes.any (·.unschedulable) then ["C09|cordoned-node-in-view:" ++ t] else []) ++
+    -- the view is the set of pods and nodes the documented rules attribute to the group
+    ["C14|the decision contradicts the utilisation over the pods and nodes attributed to the group: " ++ t])) ++
   if c.dry then [] else
   (if Spec.C07.orderHolds c j then [] else ["C07|order"]) ++
   (if Spec.C07.reuseHolds c j then [] else ["C07|reuse"]) ++
